@@ -1,3 +1,4 @@
+import TinysetModel.Proofs.InsertSrc
 import TinysetModel.Proofs.RemoveSrc
 import TinysetModel.Proofs.ContainsSrc
 import TinysetModel.Proofs.Loops
@@ -323,6 +324,19 @@ theorem source_contains_is_membership_u32 {r : Rp} (wf : WF cfg32 r) (e : Nat) (
     (hn : capacity r < 2 ^ 32) : srcContains32 r e = true ↔ e ∈ elems cfg32 r := by
   rw [source_contains_is_model_u32 wf e he hn]
   exact contains_refines cfg32_ok wf e he
+
+/-! ### the in-place paths of `insert` are those of the current source -/
+
+/-- as for SetU64 (tables below 2^32 buckets); the room rule of `SetU32` — more than 1/16 of the buckets empty — is
+the translated iterator chain of the source -/
+theorem insert_in_place_is_the_source_u32 {D : Type} (g : Rng D) (fuel e sz cap : Nat) (a : Tbl) (he : e < 2 ^ 32)
+    (hn : a.size < 2 ^ 32) (d : D) (res : (Bool × Nat) × Array Nat) :
+    (cap = a.size → Gen.insert_dense_32 e sz a = .ok res →
+      insert cfg32 g (fuel + 1) (.heap sz cap 32 a) e d = armOut cap 32 d (.ok res)) ∧
+    (∀ bits, 0 < bits ∧ bits < 32 → Gen.insert_heap_32 e sz bits a = .ok res →
+      insert cfg32 g (fuel + 1) (.heap sz cap bits a) e d = armOut cap bits d (.ok res)) :=
+  ⟨fun hc h => insert_dense_is_the_source_u32 g fuel e sz cap a hc d h,
+   fun bits hb h => insert_heap_is_the_source_u32 g fuel e sz cap bits a he hb hn d h⟩
 
 end C02
 
